@@ -1,6 +1,6 @@
-(* C26 -- matrix_mul preserves the value of the product (matrix_mul.cpp), outside the two
-   defect classes named by the guards [guard_mul_zero] and [guard_mul_scalar_ident]. *)
-From SE Require Import C26.MatSpec C26.MatLemmas C26.MatAddProofs C26.MatMulAlg.
+(* C26 -- matrix_mul preserves the value of the product (matrix_mul.cpp), outside the defect
+   class named by the guard [guard_mul_zero] (a ZeroMatrix argument and an unknown outer size). *)
+From SE Require Import C26.MatSpec C26.MatLemmas C26.MatAddProofs C26.MatMulAlg C26.MatUnaryProofs.
 From Coq Require Import Lia Ring.
 Local Open Scope nat_scope.
 Local Open Scope res_scope.
@@ -331,14 +331,16 @@ Definition mul_body (args : list marg) : res mexpr :=
   let '(scalar, expanded) := expand_mul args e1 [] in
   do _ <- check_matching_mul_sizes expanded;
   match first_zero_arg args with
-  | Some z => Ok z
+  | Some z => Ok (zero_result expanded z)
   | None =>
       do st <- foldM mul_step expanded {| m_keep := []; m_diag := None; m_dense := None; m_ident := None |};
-      let keep := flush st in
-      match keep, m_ident st with
-      | [x], _ => if e_eqb scalar e1 then Ok x else Ok (MMul scalar keep)
-      | [], Some n => Ok (MIdent n)
-      | _, _ => Ok (MMul scalar keep)
+      let keep := match flush st, m_ident st with
+                  | [], Some n => [MIdent n]
+                  | k, _ => k
+                  end in
+      match keep with
+      | [x] => if e_eqb scalar e1 then Ok x else Ok (MMul scalar keep)
+      | _ => Ok (MMul scalar keep)
       end
   end.
 
@@ -353,21 +355,51 @@ Proof.
     destruct Hs as (sa & sb & A & B & _). constructor; [eauto|]. eapply IH. exact B.
 Qed.
 
-Lemma shp_MMul' rho k fs : shp rho (MMul k fs) = shape_chain (map (shp rho) fs).
-Proof. unfold shp. cbn [sem fst]. now rewrite map_map. Qed.
+(* ---------------------------------------------------------------- a zero operand *)
+Definition zero_sv (a : sval) : Prop :=
+  forall s, fst a = Some s -> forall i j, i < fst s -> j < snd s -> snd a i j = e0.
+
+Lemma prod_zero_l a b : zero_sv a -> zero_sv (prod_sv a b).
+Proof.
+  intros Ha s Hs i j Hi Hj. cbn [prod_sv fst snd] in *. apply prod_shape_Some in Hs.
+  destruct Hs as (sa & sb & A & B & C & ->). cbn [fst snd] in *. rewrite A. cbn [cols_of].
+  rewrite <- (esum_n_zero (snd sa)). apply esum_n_ext. intros k Hk. rewrite (Ha sa A i k Hi Hk). ring.
+Qed.
+
+Lemma prod_zero_r a b : zero_sv b -> zero_sv (prod_sv a b).
+Proof.
+  intros Hb s Hs i j Hi Hj. cbn [prod_sv fst snd] in *. apply prod_shape_Some in Hs.
+  destruct Hs as (sa & sb & A & B & C & ->). cbn [fst snd] in *. rewrite A. cbn [cols_of].
+  rewrite <- (esum_n_zero (snd sa)). apply esum_n_ext. intros k Hk.
+  rewrite (Hb sb B k j) by lia. ring.
+Qed.
+
+Lemma chain_zero l z : In z l -> zero_sv z -> zero_sv (chain_sv l).
+Proof.
+  induction l as [|x l IH]; intros Hin Hz; [destruct Hin|].
+  destruct l as [|y l].
+  - destruct Hin as [->|[]]. exact Hz.
+  - rewrite chain_sv_cons. destruct Hin as [->|Hin].
+    + now apply prod_zero_l.
+    + apply prod_zero_r. now apply IH.
+Qed.
+
+Lemma first_zero_arg_spec args z :
+  first_zero_arg args = Some z -> In z (mats args) /\ is_MZero z = true.
+Proof. unfold first_zero_arg. intros H. apply find_some in H. exact H. Qed.
 
 Lemma mul_body_value rho args res s :
   mul_body args = Ok res ->
-  guard_mul_zero args = false -> guard_mul_scalar_ident args = false ->
+  guard_mul_zero args = false ->
   shp rho (naive_mul args) = Some s ->
   sv_eq (sem rho res) (sem rho (naive_mul args)).
 Proof.
-  intros Hm Hgz Hgs Hs. rewrite naive_mul_eq in *.
+  intros Hm Hgz Hs. rewrite naive_mul_eq in *.
   assert (Hdef : Forall (fun e => exists sh, shp rho e = Some sh) (mats args)).
-  { rewrite shp_MMul' in Hs. eapply defined_operands; eauto. }
-  unfold mul_body in Hm. unfold guard_mul_scalar_ident in Hgs.
+  { rewrite shp_MMul in Hs. eapply defined_operands; eauto. }
+  unfold mul_body in Hm. unfold guard_mul_zero in Hgz.
   pose proof (expand_sv rho args e1 [] Hdef) as Hexp.
-  destruct (expand_mul args e1 []) as [scalar expanded] eqn:Ee. cbn [fst snd app] in Hexp.
+  destruct (expand_mul args e1 []) as [scalar expanded] eqn:Ee. cbn [fst snd app] in Hexp, Hgz.
   assert (Hfin : sv_eq (scale_sv scalar (chain rho expanded)) (sem rho (MMul (Kargs args) (mats args)))).
   { eapply sv_eq_trans; [exact Hexp|].
     eapply sv_eq_trans; [|apply sv_eq_sym, sem_MMul_sveq]. apply scale_sv_eq. ring. }
@@ -375,41 +407,68 @@ Proof.
   { destruct Hfin as [E _]. cbn [scale_sv fst] in E. unfold shp in Hs. congruence. }
   destruct (check_matching_mul_sizes expanded) as [[]| | |] eqn:Ec; cbn [bind] in Hm; try discriminate.
   pose proof (check_mul_nonempty _ Ec) as Hne.
-  unfold guard_mul_zero in Hgz. destruct (first_zero_arg args); [discriminate|].
-  destruct (foldM mul_step expanded _) as [st| | |] eqn:Ef; cbn [bind] in Hm; try discriminate.
-  assert (HI0 : mul_inv rho [] {| m_keep := []; m_diag := None; m_dense := None; m_ident := None |}).
-  { split; [now left|]. split; [intros H; exfalso; apply H; reflexivity|].
-    intros _. split; [reflexivity|]. left. split; reflexivity. }
-  pose proof (mul_loop_inv rho expanded s [] _ st HI0 Hsh Ef) as (Hone & HB & HC). cbn [app] in *.
-  eapply sv_eq_trans; [|exact Hfin].
-  destruct (flush st) as [|x [|y l]] eqn:EL.
-  - (* only identity matrices *)
-    destruct (HC eq_refl) as [Hall [[E0 _]|[_ (n & Hn & E)]]]; [congruence|].
-    rewrite Hn in Hm. inversion Hm; subst res.
-    rewrite Hall in Hgs. cbn [andb] in Hgs. apply negb_false_iff, e_eqb_eq in Hgs. subst scalar.
-    eapply sv_eq_trans; [|apply sv_eq_sym, scale_sv_one].
-    apply sv_eq_sym. exact E.
-  - destruct (HB ltac:(discriminate)) as [_ E]. rewrite chain_single in E.
-    destruct (e_eqb scalar e1) eqn:Es.
-    + inversion Hm; subst res. apply e_eqb_eq in Es. subst scalar.
-      eapply sv_eq_trans; [|apply sv_eq_sym, scale_sv_one]. apply sv_eq_sym. exact E.
-    + inversion Hm; subst res.
-      eapply sv_eq_trans; [apply sem_MMul_sveq|]. apply scale_sv_cong. rewrite chain_single.
-      apply sv_eq_sym. exact E.
-  - destruct (HB ltac:(discriminate)) as [_ E].
-    assert (Hres : res = MMul scalar (x :: y :: l)) by (destruct (m_ident st); inversion Hm; reflexivity).
-    subst res. eapply sv_eq_trans; [apply sem_MMul_sveq|]. apply scale_sv_cong.
-    apply sv_eq_sym. exact E.
+  destruct (first_zero_arg args) as [z|] eqn:Ez.
+  - (* a ZeroMatrix argument, outer sizes known *)
+    inversion Hm; subst res. apply negb_false_iff in Hgz.
+    destruct (first_zero_arg_spec _ _ Ez) as [Hin Hz].
+    unfold outer_known in Hgz. unfold zero_result.
+    destruct expanded as [|f0 fr]; [congruence|]. cbn [map] in *.
+    destruct (fst (size f0)) as [nr|] eqn:Er; [|discriminate].
+    destruct (snd (last (map size fr) (size f0))) as [nc|] eqn:Ecl; [|discriminate].
+    (* the sizes are the true ones *)
+    unfold chain in Hsh. rewrite chain_sv_shape, map_map in Hsh.
+    change (map (fun x => fst (sem rho x)) (f0 :: fr)) with (map (shp rho) (f0 :: fr)) in Hsh.
+    pose proof (defined_operands rho _ _ Hsh) as Hdefx.
+    apply shape_chain_Some in Hsh. destruct Hsh as (sa & sb & Hh & Hl & Ha & Hb).
+    cbn [map hd] in Hh.
+    assert (Hr : dval rho nr = fst s).
+    { destruct (size_sound rho f0 sa Hh) as [A _]. rewrite <- Ha. now apply A. }
+    assert (Hc : dval rho nc = snd s).
+    { cbn [map] in Hl. rewrite last_cons_default, last_map in Hl. rewrite last_map in Ecl.
+      destruct (size_sound rho (last fr f0) sb Hl) as [_ B]. rewrite <- Hb. now apply B. }
+    split.
+    + rewrite !sem_shape, shp_MZero, Hs, Hr, Hc. now destruct s.
+    + rewrite sem_shape, shp_MZero. intros s' Hs' i j Hi Hj. inversion Hs'; subst s'. cbn [fst snd] in *.
+      rewrite sem_val, val_MZero. symmetry.
+      destruct (sem_MMul_sv rho (Kargs args) (mats args)) as [_ B]. rewrite B. cbn [scale_sv snd].
+      assert (Hzero : zero_sv (chain_sv (map (sem rho) (mats args)))).
+      { apply (chain_zero _ (sem rho z)); [now apply in_map|].
+        destruct z; try discriminate. intros s0 _ i0 j0 _ _. reflexivity. }
+      rewrite (Hzero s); [ring | | lia | lia].
+      unfold shp in Hs. cbn [sem fst] in Hs. now rewrite chain_sv_shape.
+  - destruct (foldM mul_step expanded _) as [st| | |] eqn:Ef; cbn [bind] in Hm; try discriminate.
+    assert (HI0 : mul_inv rho [] {| m_keep := []; m_diag := None; m_dense := None; m_ident := None |}).
+    { split; [now left|]. split; [intros H; exfalso; apply H; reflexivity|].
+      intros _. split; [reflexivity|]. left. split; reflexivity. }
+    pose proof (mul_loop_inv rho expanded s [] _ st HI0 Hsh Ef) as (Hone & HB & HC). cbn [app] in *.
+    eapply sv_eq_trans; [|exact Hfin].
+    (* the kept chain, with the identity put back when nothing else is left *)
+    set (keep := match flush st, m_ident st with [], Some n => [MIdent n] | k, _ => k end) in *.
+    assert (Hkeep : keep <> [] /\ sv_eq (chain rho expanded) (chain rho keep)).
+    { subst keep. destruct (flush st) as [|x l] eqn:EL.
+      - destruct (HC eq_refl) as [_ [[E0 _]|[_ (n & Hn & E)]]]; [congruence|].
+        rewrite Hn. split; [discriminate|]. rewrite chain_single. exact E.
+      - split; [discriminate|]. now apply HB. }
+    destruct Hkeep as [Hkne Hk].
+    assert (Hgen : sv_eq (sem rho (MMul scalar keep)) (scale_sv scalar (chain rho expanded))).
+    { eapply sv_eq_trans; [apply sem_MMul_sveq|]. apply scale_sv_cong. apply sv_eq_sym. exact Hk. }
+    destruct keep as [|x [|y l]] eqn:Ek; [congruence | |].
+    + destruct (e_eqb scalar e1) eqn:Es.
+      * inversion Hm; subst res. apply e_eqb_eq in Es. subst scalar.
+        eapply sv_eq_trans; [|apply sv_eq_sym, scale_sv_one]. rewrite chain_single in Hk.
+        apply sv_eq_sym. exact Hk.
+      * inversion Hm; subst res. exact Hgen.
+    + inversion Hm; subst res. exact Hgen.
 Qed.
 
 Theorem matrix_mul_value rho args res s :
   matrix_mul args = Ok res ->
-  guard_mul_zero args = false -> guard_mul_scalar_ident args = false ->
+  guard_mul_zero args = false ->
   shp rho (naive_mul args) = Some s ->
   shp rho res = Some s /\
   forall i j, i < fst s -> j < snd s -> val rho res i j = val rho (naive_mul args) i j.
 Proof.
-  intros Hm Hgz Hgs Hs. apply sv_eq_value; [|exact Hs].
+  intros Hm Hgz Hs. apply sv_eq_value; [|exact Hs].
   destruct args as [|a0 args']; [discriminate|].
   destruct a0 as [q0|e0'], args' as [|a1 args'']; try discriminate.
   - eapply mul_body_value; eauto.
@@ -418,4 +477,20 @@ Proof.
     eapply sv_eq_trans; [|apply sv_eq_sym, sem_MMul_sveq]. rewrite chain_single.
     apply sv_eq_sym, scale_sv_one.
   - eapply mul_body_value; eauto.
+Qed.
+
+(* ---------------------------------------------------------------- the remaining defect *)
+(* X * ZeroMatrix(3,4) with X a matrix symbol: the result is ZeroMatrix(3,4) whatever the number
+   of rows of X *)
+Definition mul_zero_witness : list marg := [AMat (MSym 1); AMat (MZero (DInt 3) (DInt 4))].
+
+Theorem matrix_mul_zero_shape_refuted :
+  exists args res rho V, matrix_mul args = Ok res /\
+    denote rho (naive_mul args) = Some V /\
+    forall V', denote rho res = Some V' -> mr V' <> mr V.
+Proof.
+  exists mul_zero_witness, (MZero (DInt 3) (DInt 4)),
+         {| dimv := fun _ => 0; matv := fun _ => mkmat 2 3 (fun _ _ => e0) |}.
+  eexists. split; [vm_compute; reflexivity|]. split; [reflexivity|].
+  intros V' H. inversion H; subst. cbn. discriminate.
 Qed.
